@@ -216,7 +216,32 @@ pub fn perturb(r: &mut Rng, base: &PV) -> (PV, String) {
             }
         }
     }
-    recouple(&mut v);
+    if r.chance(1, 2) {
+        recouple(&mut v);
+    } else if v[S_STRATEGY] < 2 {
+        // product of the per-field ranges: any (matching type, nice length) row with any add policy and
+        // any chain depth, flags independent of each other
+        let rows: [(u32, u32, u32); 10] = [
+            (0, 0, 8),
+            (0, 0, 16),
+            (0, 0, 32),
+            (0, 0, 258),
+            (4, 4, 16),
+            (8, 16, 32),
+            (8, 16, 128),
+            (8, 32, 128),
+            (32, 128, 258),
+            (32, 258, 258),
+        ];
+        let row = *r.pick(&rows);
+        v[S_GOOD] = row.0;
+        v[S_LAZY] = row.1;
+        v[S_NICE] = row.2;
+        v[S_ZCOMPAT] = r.below(2) as u32;
+        how.push_str("uncoupled(product) ");
+    } else {
+        recouple(&mut v);
+    }
     (v, how)
 }
 
